@@ -110,7 +110,10 @@ static RunResult run_one(const Plan& plan) {
     }
     rr.loghash = lh.h;
     ++rr.orc["C19"];
-    if (simseam::alloc_active() && rr.leak_blocks != 0 && !ex.stop) {
+    // Clause checked here: memory in use must not grow with the number of masa_init calls by anything like a solution
+    // object (the smallest is > 2 KB; every init builds 37 of them).  Reachability at exit is memcheck's business.
+    const long long leak_threshold = 512LL * (long long)(ex.ninit + 1);
+    if (simseam::alloc_active() && rr.leak_bytes > leak_threshold && !ex.stop) {
       // Conservation at teardown failed.  One-time lazy allocations of the C++ runtime (first use of a stream
       // facet inside a library call) look the same, so the growth must RECUR when the same plan is executed
       // again in this process: only repeatable growth is growth with the number of masa_init calls.
@@ -129,7 +132,7 @@ static RunResult run_one(const Plan& plan) {
         lb = a2.live_blocks - b2.live_blocks;
         lby = a2.live_bytes - b2.live_bytes;
       }
-      if (lb != 0) {
+      if (lby > leak_threshold) {
         Violation v;
         v.prop = "C19";
         v.oracle = "C19.leak.teardown";
